@@ -5,3 +5,6 @@ import VibeProof.Props.C23
 #print axioms VibeProof.C23.C23_spans_ordered
 #print axioms VibeProof.C23.C23_skeleton_depth_budget
 #print axioms VibeProof.C23.C23_skeleton_at_parser_limit
+#print axioms VibeProof.C23.C23_ranked_graph_acyclic
+#print axioms VibeProof.C23.C23_parser_unguarded_calls_ranked
+#print axioms VibeProof.C23.C23_parser_recursion_guarded
